@@ -477,6 +477,8 @@ def _spk(w: WalletSpec, index: int) -> Any:
 def _fund_input(ch: Choices, w: WalletSpec, vin_i: int, n_pay: int) -> tuple[InputSpec, PsbtIn]:
     index = ch.draw(6, "in.index")
     value = ch.pick([100_000, 10_000, 1_000_000, 2_100_000_000_000], "in.value") + ch.draw(50_000, "in.extra")
+    if n_pay > 16:
+        value += 1200 * n_pay  # hundreds of payments above dust need that much coming in
     vout = ch.draw(3, "in.vout")
     outs = [TxOut(1000 + j, b"\x00\x14" + bytes([j + 1]) * 20) for j in range(vout)] + [TxOut(value, _spk(w, index))]
     # the funding transaction: distinct per input, so no outpoint is spent twice
@@ -526,6 +528,9 @@ def fund_and_build(
     wallets = list(wallets)
     n_inputs = 1 + ch.draw(max_inputs, "n.inputs")
     n_pay = 1 + ch.draw(3, "n.payments")
+    if ch.draw(12, "n.payments.many?") == 11:
+        # the output count on the CompactSize boundary: with a change output 252 payments make 253 outputs
+        n_pay = ch.pick([252, 251, 253], "n.payments.many")
     specs: list[InputSpec] = []
     psbt_ins: list[PsbtIn] = []
     for vin_i in range(n_inputs):
@@ -537,13 +542,17 @@ def fund_and_build(
     lock_time = max([s.path.lock_time or 0 for s in specs])
     if not lock_time:
         lock_time = ch.pick([0, 0, 850_000, 1], "lock_time")
-    # capped so that a quarter of what comes in always covers it (< 6000 vbytes for four inputs of any shape)
-    rate = FeeRate(sats_per_kvbyte=min(total_in // 24, ch.pick([1000, 0, 1, 253, 999, 1001, 1500, 12_345, 100_000], "fee.rate") + ch.draw(2, "fee.odd")))
+    # capped so that a quarter of what comes in always covers it (< 6000 vbytes for four inputs of any shape,
+    # < 15000 with hundreds of payments)
+    rate = FeeRate(sats_per_kvbyte=min(total_in // (24 if n_pay <= 16 else 60), ch.pick([1000, 0, 1, 253, 999, 1001, 1500, 12_345, 100_000], "fee.rate") + ch.draw(2, "fee.odd")))
     # payments: to scripts of every standard kind; together at most ~3/4 of what comes in
     budget = total_in * (1 + ch.draw(3, "pay.share")) // 4
     payments = []
     for j in range(n_pay):
         amount = max(600, budget // n_pay - ch.draw(1000, "pay.jitter"))
+        if j >= 4:
+            payments.append(TxOut(amount, b"\x00\x14" + hashlib.sha256(j.to_bytes(2, "big")).digest()[:20]))
+            continue
         script = ch.pick(
             [
                 b"\x00\x14" + bytes([0xA0 + j]) * 20,
